@@ -42,8 +42,8 @@ struct Ctx { const char* fn; int v; const fam::Bytes& img; std::string who() con
 
 // the reader itself: every strict prefix of a valid image is outside the layout and must be rejected with std::runtime_error (each prefix is copied
 // into an exact-size heap block so that ASan sees any read past its end). All prefixes of small images, a case-derived sample of larger ones.
-template <typename F> void prefixes_rejected(const Ctx& c, F f) {
-  const size_t n = c.img.size(); std::vector<size_t> cuts;
+template <typename F> void prefixes_rejected(const Ctx& c, F f, size_t optional_tail = 0) {
+  const size_t n = c.img.size() - optional_tail; std::vector<size_t> cuts;
   if (n <= 96) for (size_t i = 0; i < n; ++i) cuts.push_back(i);
   else { for (size_t i = 0; i < 24; ++i) cuts.push_back(i); for (size_t j = 0; j < 16; ++j) cuts.push_back(24 + vf::mix64(n * 131 + j) % (n - 24)); cuts.push_back(n - 1); }
   for (size_t k : cuts) {
@@ -51,7 +51,7 @@ template <typename F> void prefixes_rejected(const Ctx& c, F f) {
     bool threw = false;
     try { (void)f(blk, k); } catch (const std::runtime_error&) { threw = true; } catch (...) { free(blk); throw; }
     free(blk);
-    VF_CHECK(threw, "reader-accepts-prefix", c.who() << ": the independent reader accepts the first " << k << " of " << n << " bytes as a complete image  image[" << n << "]=" << hex(c.img));
+    VF_CHECK(threw, "reader-accepts-prefix", c.who() << ": the independent reader accepts the first " << k << " of " << c.img.size() << " bytes as a complete image  image[" << c.img.size() << "]=" << hex(c.img));
     vf::count("prefixes-rejected");
   }
 }
@@ -525,7 +525,13 @@ void chk_bloom(const Ctx& c, fam::BloomObj& o) {
 
 // ---------------------------------------------------------------- density
 void chk_dens(const Ctx& c, fam::DensObj& o) {
-  auto im = decode(c, L::decode_density_float); const auto& sk = o.sk;
+  auto im = decode(c, L::decode_density_float, false); const auto& sk = o.sk;
+  {
+    // the number of levels is not stored: trailing empty levels (4 zero bytes each) are optional, a prefix without them is the same content
+    size_t tail = 0; for (size_t h = im.levels.size(); h > 1 && im.levels[h - 1].empty(); --h) tail += 4;
+    prefixes_rejected(c, L::decode_density_float, tail);
+    if (tail) vf::label("density:trailing-empty-level");
+  }
   common_u(c, im);
   VF_CHECK(im.k == sk.get_k() && im.dim == sk.get_dim(), "dens-config", WHO << "k/dim in image " << im.k << "/" << im.dim << " vs API " << sk.get_k() << "/" << sk.get_dim() << IMG);
   VF_CHECK(im.f_empty == sk.is_empty(), "dens-empty", WHO << "empty flag " << im.f_empty << " vs is_empty " << sk.is_empty() << IMG);
